@@ -131,6 +131,42 @@ impl Property for C04 {
                 }
             }
         }
+        // (iii-b) thousands of bits
+        for lt in [TID_D, TID_A, 18u8] {
+            for rt in [TID_D, TID_A, 18u8, 9u8] {
+                if !sh.mine() {
+                    continue;
+                }
+                let lc = fixed_cap(lt).unwrap_or(usize::MAX);
+                let rc = fixed_cap(rt).unwrap_or(usize::MAX);
+                for n in LONG_LENS {
+                    let n = n.min(lc);
+                    for m in [n, n + 64, n / 2 + 7, 64usize] {
+                        let m = m.min(rc);
+                        for a in long_values(n) {
+                            for b in [Bits::ones(m), long_values(m)[1].clone()] {
+                                for op in LOGIC {
+                                    rot += 1;
+                                    let c = C04Case::Bin { a: Operand::canon(lt, a.clone()), b: Rhs::V(Operand::canon(rt, b.clone())), op, form: FORMS[rot % 6] };
+                                    if !f(c) {
+                                        return;
+                                    }
+                                }
+                            }
+                        }
+                    }
+                    for a in long_values(n) {
+                        for prov in [Prov::Canon, Prov::Spare(200), Prov::Spare(4200)] {
+                            for owned in [false, true] {
+                                if !f(C04Case::Not { a: Operand { ty: lt, bits: a.clone(), prov: prov.clone() }, owned }) {
+                                    return;
+                                }
+                            }
+                        }
+                    }
+                }
+            }
+        }
         // (iv) not
         for t in 0..NT {
             if !sh.mine() {
